@@ -6,6 +6,8 @@
    Strings are sequences over CHARACTER CLASSES:
      L ASCII letter   D digit   U underscore   S slash   N newline   P other ASCII punctuation / space
      X non-ASCII letter (look-alikes)   C control character other than newline
+     F non-ASCII letter that case-folds or compatibility-normalises to an ASCII letter (dotless i, dotted capital I,
+       long s, the Kelvin sign, a ligature): what a case-insensitive "[a-z]" also matches -- Dev "IgnoreCase"
    The property's grammar (Ref...) and the implementation's recognisers (Impl...) are both written out; Python's
    `$` -- which also matches before ONE trailing newline -- is modelled as it is.  What slips through the
    regular expressions (an identifier followed by a newline) is rejected downstream by the compiler before
@@ -16,8 +18,9 @@
    string-literal holes (repr-quoted); the template's own free identifiers must not be capturable by a field
    name: NoCapture. *)
 EXTENDS Naturals, Sequences, FiniteSets, TLC
+CONSTANT Dev
 
-Classes == {"L", "D", "U", "S", "N", "P", "X", "C"}
+Classes == {"L", "D", "U", "S", "N", "P", "X", "C", "F"}
 RECURSIVE Strs(_)
 Strs(n) == IF n = 0 THEN {<<>>} ELSE LET prev == Strs(n - 1) IN prev \cup {Append(s, c) : s \in {p \in prev : Len(p) = n - 1}, c \in Classes}
 Word(c) == c \in {"L", "D", "U"}
@@ -30,12 +33,15 @@ SplitOn(s, sep) == IF ~\E i \in DOMAIN s : s[i] = sep THEN <<s>>
 RefTypeName(s) == s # <<>> /\ \A i \in DOMAIN SplitOn(s, "S") : IsIdent(SplitOn(s, "S")[i])
 RefFieldName(s) == IsIdent(s)
 \* ---- the implementation's recognisers (re.match with ^...$) ----
+IWord(c) == Word(c) \/ ("IgnoreCase" \in Dev /\ c = "F")
+ILetter(c) == c = "L" \/ ("IgnoreCase" \in Dev /\ c = "F")
+ImplIdent(s) == Len(s) >= 1 /\ ILetter(s[1]) /\ \A i \in DOMAIN s : IWord(s[i])
 StripDollar(s) == IF Len(s) >= 1 /\ s[Len(s)] = "N" THEN {s, SubSeq(s, 1, Len(s) - 1)} ELSE {s}
 ReField(s) == \E t \in StripDollar(s) :
                  LET u == IF Len(t) >= 1 /\ t[1] = "U" THEN SubSeq(t, 2, Len(t)) ELSE t
-                 IN Len(u) >= 1 /\ u[1] = "L" /\ \A i \in DOMAIN u : Word(u[i])
+                 IN ImplIdent(u)
 ImplFieldName(s) == ~(Len(s) >= 1 /\ s[1] = "U") /\ ReField(s)
-ImplTypeName(s) == s # <<>> /\ \E t \in StripDollar(s) : t # <<>> /\ \A i \in DOMAIN SplitOn(t, "S") : IsIdent(SplitOn(t, "S")[i])
+ImplTypeName(s) == s # <<>> /\ \E t \in StripDollar(s) : t # <<>> /\ \A i \in DOMAIN SplitOn(t, "S") : ImplIdent(SplitOn(t, "S")[i])
 HasNewline(s) == \E i \in DOMAIN s : s[i] = "N"
 AcceptedField(s) == ImplFieldName(s) /\ ~HasNewline(s)
 AcceptedType(s) == ImplTypeName(s) /\ ~HasNewline(s)
